@@ -39,6 +39,8 @@ ASSUMPTIONS = [
 PROBES = ["nonempty_tables", "hashseed_varied", "dirent_varied", "heap_varied", "ws_sibling", "ws_otherfs", "ws_relative", "ws_symlink",
           "history_same_project", "history_other_project", "history_crashed_run", "multi_file_project", "corpus_project",
           "generated_project", "sub_run", "sub_semantic", "taint_phase_ran"]
+# the same check again, smaller, in interpreters started with assertions stripped (python -O / PYTHONOPTIMIZE=1)
+ENV_VARIANTS = [{"name": "python-O", "env": {"PYTHONOPTIMIZE": "1"}, "runs": {'quick': 5, 'thorough': 60}}]
 TIERS = {
     "quick": {"runs": 56, "budget_s": 420, "chunk": 1, "selftest": 6, "per_run_timeout": 900},
     "thorough": {"runs": 0, "budget_s": 1800, "chunk": 1, "selftest": 12, "per_run_timeout": 900},
